@@ -5,37 +5,766 @@ import ast
 
 import sympy as sp
 
-from ..core import src, AnalysisError, parent
+from ..core import src, AnalysisError, parent, same_expr, contains
 from .. import units as U
 from ..symx import alg_equal
-from .. import ispace as I
 from .C05 import solver as solver_index_spaces
 
 CLS = "DiffEqSolver"
+QNC = "QuasiNeutralitySolver"
+
+
+# =========================================================================================================
+# private views of the code (shared with C15)
+#
+# The rules below are phrased on *expressions*: "the operator of mode I", "the offsets of the diagonals", "the number of
+# quadrature points".  A refactoring that gives such an expression a name, hoists it out of a loop or moves it into a
+# helper method does not change the expression the program evaluates.  Two devices recover it:
+#   * flat_view: a private copy of a method in which calls of helper methods that the reference tree does not have
+#     are written back in place (following the class hierarchy, callable arguments and `if/else` returns);
+#   * Env.x: an expression with every local name replaced by its unique reaching definition (when that definition
+#     dominates the use and nothing it reads is rebound in between).
+# Both only produce a *view* used for recognition; the shared syntax trees are never modified.
+# =========================================================================================================
+
+def _clone(n):
+    if isinstance(n, list):
+        return [_clone(x) for x in n]
+    if not isinstance(n, ast.AST):
+        return n
+    new = type(n)()
+    for f in n._fields:
+        if hasattr(n, f):
+            setattr(new, f, _clone(getattr(n, f)))
+    for a in ("lineno", "col_offset", "end_lineno", "end_col_offset"):
+        if hasattr(n, a):
+            setattr(new, a, getattr(n, a))
+    return new
+
+
+def _relink(root, par):
+    for node in ast.walk(root):
+        for ch in ast.iter_child_nodes(node):
+            ch._parent = node
+    root._parent = par
+
+
+def _stmt_of(node):
+    p = node
+    while p is not None and not isinstance(p, ast.stmt):
+        p = parent(p)
+    return p
+
+
+def _block_of(st):
+    """(list, index) of the statement list that holds `st`"""
+    p = parent(st)
+    if p is None:
+        return None, None
+    for f in ("body", "orelse", "finalbody"):
+        b = getattr(p, f, None)
+        if isinstance(b, list):
+            for k, x in enumerate(b):
+                if x is st:
+                    return b, k
+    return None, None
+
+
+def _own_exprs(st):
+    """expression children evaluated by the statement itself (not those of nested statements)"""
+    if isinstance(st, (ast.If, ast.While)):
+        return [st.test]
+    if isinstance(st, (ast.For, ast.AsyncFor)):
+        return [st.iter]
+    if isinstance(st, (ast.With, ast.AsyncWith)):
+        return [i.context_expr for i in st.items]
+    if isinstance(st, (ast.FunctionDef, ast.AsyncFunctionDef, ast.ClassDef, ast.Try)):
+        return []
+    return [c for c in ast.iter_child_nodes(st) if isinstance(c, ast.expr)]
+
+
+def _walk_no_scopes(e):
+    """nodes of an expression outside lambdas and comprehensions"""
+    stack = [e]
+    while stack:
+        n = stack.pop()
+        yield n
+        if isinstance(n, (ast.Lambda, ast.ListComp, ast.SetComp, ast.DictComp, ast.GeneratorExp)):
+            continue
+        stack.extend(ast.iter_child_nodes(n))
+
+
+def _params(fn):
+    a = fn.args
+    out = [x.arg for x in a.posonlyargs + a.args + a.kwonlyargs]
+    if a.vararg:
+        out.append(a.vararg.arg)
+    if a.kwarg:
+        out.append(a.kwarg.arg)
+    return out
+
+
+def _hierarchy(mod, cls):
+    classes = {c.name: c for c in mod.tree.body if isinstance(c, ast.ClassDef)}
+    out, seen, todo = [], set(), [cls]
+    while todo:
+        c = todo.pop(0)
+        if c in seen or c not in classes:
+            continue
+        seen.add(c)
+        out.append(classes[c])
+        todo.extend(b.id for b in classes[c].bases if isinstance(b, ast.Name))
+    return out
+
+
+def _method(mod, cls, name):
+    for c in _hierarchy(mod, cls):
+        for m in c.body:
+            if isinstance(m, ast.FunctionDef) and m.name == name and \
+                    not any(src(d).endswith(".setter") for d in m.decorator_list):
+                return c.name, m
+    return None, None
+
+
+def _reference_functions(rel):
+    try:
+        from .. import alpha
+        return alpha.reference_functions(rel)
+    except Exception:
+        return set()
+
+
+class _Sub(ast.NodeTransformer):
+    def __init__(self, rename, subst):
+        self.rename, self.subst = rename, subst
+
+    def visit_Name(self, node):
+        if node.id in self.subst and isinstance(node.ctx, ast.Load):
+            return _clone(self.subst[node.id])
+        if node.id in self.rename:
+            node.id = self.rename[node.id]
+        return node
+
+
+def _is_ref_chain(e):
+    """name / constant / attribute chain on a name: evaluating it twice or later gives the same object"""
+    if isinstance(e, ast.Constant):
+        return True
+    while isinstance(e, ast.Attribute):
+        e = e.value
+    return isinstance(e, ast.Name)
+
+
+def _has_return(stmts):
+    for s in stmts:
+        for n in ast.walk(s):
+            if isinstance(n, ast.Return):
+                return True
+    return False
+
+
+def _convert_returns(stmts, make, allow_none):
+    """rewrite the tail `return v` of a straight-line / if-else body into `make(v)`; False when a return sits elsewhere"""
+    if not stmts:
+        return allow_none
+    if _has_return(stmts[:-1]):
+        return False
+    last = stmts[-1]
+    if isinstance(last, ast.Return):
+        new = make(last.value)
+        if new is None:
+            stmts.pop()
+        else:
+            stmts[-1] = new
+        return True
+    if isinstance(last, ast.If) and _has_return([last]):
+        if not last.orelse:
+            return False
+        return _convert_returns(last.body, make, allow_none) and _convert_returns(last.orelse, make, allow_none)
+    if _has_return([last]):
+        return False
+    return allow_none
+
+
+def flat_view(chk, rel, cls, meth):
+    """private copy of `cls.meth` with the calls of helper methods (methods the reference tree does not have) expanded"""
+    cache = chk.__dict__.setdefault("_c14_views", {})
+    key = (rel, cls, meth)
+    if key not in cache:
+        cache[key] = _flatten(chk, rel, chk.func(rel, f"{cls}.{meth}"), cls)
+    return cache[key]
+
+
+def flat_function(chk, rel, name):
+    """private copy of a plain function with the calls of its local functions and of new module-level helpers expanded"""
+    cache = chk.__dict__.setdefault("_c14_views", {})
+    key = (rel, None, name)
+    if key not in cache:
+        cache[key] = _flatten(chk, rel, chk.func(rel, name), None)
+    return cache[key]
+
+
+def _flatten(chk, rel, fn0, cls):
+    mod = chk.mod(rel)
+    fn = _clone(fn0)
+    fn._qual = getattr(fn0, "_qual", fn0.name)
+    _relink(fn, parent(fn0))
+    ref = _reference_functions(rel)
+    classes = {c.name for c in _hierarchy(mod, cls)} if cls else set()
+    skip = set()
+    count = [0]
+
+    def local_defs():
+        out = {}
+        stack = list(fn.body)
+        while stack:
+            x = stack.pop()
+            if isinstance(x, ast.FunctionDef):
+                out.setdefault(x.name, x)
+                continue
+            if isinstance(x, (ast.AsyncFunctionDef, ast.ClassDef)):
+                continue
+            for f in ("body", "orelse", "finalbody"):
+                stack.extend(getattr(x, f, None) or [])
+            for h_ in getattr(x, "handlers", None) or []:
+                stack.extend(h_.body)
+        return out
+
+    def resolve(call):
+        f = call.func
+        if isinstance(f, ast.Name):
+            h = local_defs().get(f.id)
+            if h is None:
+                h = next((x for x in mod.tree.body if isinstance(x, ast.FunctionDef) and x.name == f.id and x.name not in ref
+                          and x is not fn0), None)
+            if h is None or h.name == fn0.name:
+                return None
+            return h, True
+        if not (isinstance(f, ast.Attribute) and isinstance(f.value, ast.Name)) or not cls:
+            return None
+        if f.value.id == "self":
+            owner, h = _method(mod, cls, f.attr)
+            explicit = False
+        elif f.value.id in classes:
+            owner, h = _method(mod, f.value.id, f.attr)
+            explicit = True
+        else:
+            return None
+        if h is None or f"{owner}.{h.name}" in ref or h is fn0 or h.name == fn0.name and owner == cls:
+            return None
+        return h, explicit
+
+    def next_site():
+        todo = list(fn.body)
+        while todo:
+            st = todo.pop(0)
+            for e in _own_exprs(st):
+                for n in _walk_no_scopes(e):
+                    if isinstance(n, ast.Call) and id(n) not in skip:
+                        r = resolve(n)
+                        if r is not None:
+                            return st, n, r
+            nested = []
+            if not isinstance(st, (ast.FunctionDef, ast.AsyncFunctionDef, ast.ClassDef)):
+                for f in ("body", "orelse", "finalbody"):
+                    nested += getattr(st, f, None) or []
+                for h in getattr(st, "handlers", None) or []:
+                    nested += h.body
+            todo = nested + todo
+        return None
+
+    def splice(st, call, h, explicit):
+        a = h.args
+        if a.vararg or a.kwarg or a.kwonlyargs or a.posonlyargs or isinstance(st, ast.While):
+            return False
+        static = any(isinstance(d, ast.Name) and d.id == "staticmethod" for d in h.decorator_list)
+        if any(not (isinstance(d, ast.Name) and d.id == "staticmethod") for d in h.decorator_list):
+            return False
+        params = [x.arg for x in a.args]
+        actual = {}
+        rest = params
+        if not static and not explicit:
+            if not params:
+                return False
+            actual[params[0]] = ast.Name(id="self", ctx=ast.Load())
+            rest = params[1:]
+        if len(call.args) > len(rest) or any(isinstance(x, ast.Starred) for x in call.args) or any(k.arg is None for k in call.keywords):
+            return False
+        for p, x in zip(rest, call.args):
+            actual[p] = x
+        for k in call.keywords:
+            if k.arg not in rest or k.arg in actual:
+                return False
+            actual[k.arg] = k.value
+        defaults = dict(zip(params[len(params) - len(a.defaults):], a.defaults))
+        for p in rest:
+            if p not in actual:
+                if p not in defaults:
+                    return False
+                actual[p] = defaults[p]
+        count[0] += 1
+        tag = f"__h{count[0]}"
+        body = _clone([s for s in h.body if not (isinstance(s, ast.Expr) and isinstance(s.value, ast.Constant))])
+        if any(isinstance(n, (ast.FunctionDef, ast.AsyncFunctionDef, ast.ClassDef, ast.Yield, ast.YieldFrom, ast.Global, ast.Nonlocal,
+                              ast.Try, ast.With)) for s in body for n in ast.walk(s)):
+            return False
+        stored = {n.id for s in body for n in ast.walk(s) if isinstance(n, ast.Name) and isinstance(n.ctx, ast.Store)}
+        caller_names = {n.id for n in ast.walk(fn) if isinstance(n, ast.Name)} | set(_params(fn))
+        rename, subst, pre = {}, {}, []
+        for p in params:
+            x = actual[p]
+            if _is_ref_chain(x) and p not in stored:
+                if isinstance(x, ast.Name):
+                    if x.id != p:
+                        rename[p] = x.id
+                else:
+                    subst[p] = x
+            else:
+                new = p if p not in caller_names else p + tag
+                if new != p:
+                    rename[p] = new
+                pre.append(ast.Assign(targets=[ast.Name(id=new, ctx=ast.Store())], value=_clone(x)))
+        for loc in stored - set(params):
+            if loc in caller_names:
+                rename[loc] = loc + tag
+        if set(rename.values()) & (stored - set(rename)):
+            return False
+        body = [_Sub(rename, subst).visit(s) for s in body]
+        # how the value is used
+        blk, k = _block_of(st)
+        if blk is None:
+            return False
+        keep_st = False
+        if isinstance(st, ast.Expr) and st.value is call:
+            ok = _convert_returns(body, lambda v: (ast.Expr(value=v) if isinstance(v, ast.Call) else None), True)
+        elif isinstance(st, ast.Assign) and st.value is call:
+            tg = st.targets
+            ok = _convert_returns(body, lambda v: ast.Assign(targets=_clone(tg), value=v if v is not None else ast.Constant(value=None)), False)
+        elif isinstance(st, ast.Return) and st.value is call:
+            ok = True
+            if not body or not isinstance(body[-1], ast.Return):
+                body.append(ast.Return(value=ast.Constant(value=None)))
+        else:
+            tmp = "__v" + tag
+            ok = _convert_returns(body, lambda v: ast.Assign(targets=[ast.Name(id=tmp, ctx=ast.Store())],
+                                                             value=v if v is not None else ast.Constant(value=None)), False)
+            keep_st = True
+        if not ok:
+            return False
+        if keep_st:
+            class R(ast.NodeTransformer):
+                def visit_Call(self_, node):
+                    if node is call:
+                        return ast.Name(id=tmp, ctx=ast.Load())
+                    return self_.generic_visit(node)
+            for f in st._fields:
+                v = getattr(st, f, None)
+                if isinstance(v, ast.expr):
+                    setattr(st, f, R().visit(v))
+                elif isinstance(v, list) and v and isinstance(v[0], ast.expr):
+                    setattr(st, f, [R().visit(x) for x in v])
+                elif isinstance(v, list) and v and isinstance(v[0], ast.withitem):
+                    for it in v:
+                        it.context_expr = R().visit(it.context_expr)
+        new = pre + body
+        for s in new:
+            for x in ast.walk(s):
+                ast.copy_location(x, call)
+        blk[k:k + 1] = new + ([st] if keep_st else [])
+        return True
+
+    if ref:
+        for _ in range(60):
+            site = next_site()
+            if site is None:
+                break
+            st, call, (h, explicit) = site
+            if not splice(st, call, h, explicit):
+                skip.add(id(call))
+            ast.fix_missing_locations(fn)
+            _relink(fn, parent(fn0))
+        # local functions whose every call has been written back are dead definitions
+        for name, h in local_defs().items():
+            if not any(isinstance(n, ast.Name) and n.id == name and isinstance(n.ctx, ast.Load) for n in ast.walk(fn)):
+                blk, k = _block_of(h)
+                if blk is not None and len(blk) > 1:
+                    del blk[k]
+        _relink(fn, parent(fn0))
+    return fn
+
+
+class Env:
+    """reaching definitions of the local names of one function (flow-insensitive except for dominance and loops)"""
+
+    def __init__(self, fn):
+        self.fn = fn
+        self.params = set(_params(fn))
+        self.order = {}
+        self.bind = {}          # name -> [(order, stmt, value or None)]
+        self.attr_stores = []   # (order, stmt, text of the attribute rebound)
+        self.mut = {}           # name -> [(order, stmt)]: element/slice stores and in-place updates through the name
+        self.amb = set()
+        self._number(fn.body)
+
+    # -- construction
+    def _add(self, name, st, value):
+        self.bind.setdefault(name, []).append((self.order[id(st)], st, value))
+
+    def _target(self, t, st, value):
+        if isinstance(t, ast.Name):
+            self._add(t.id, st, value)
+        elif isinstance(t, (ast.Tuple, ast.List)):
+            for e in t.elts:
+                self._target(e, st, None)
+        elif isinstance(t, ast.Starred):
+            self._target(t.value, st, None)
+        elif isinstance(t, ast.Attribute):
+            self.attr_stores.append((self.order[id(st)], st, src(t)))
+        elif isinstance(t, ast.Subscript):
+            b = t
+            while isinstance(b, ast.Subscript):
+                b = b.value
+            if isinstance(b, ast.Name):
+                self.mut.setdefault(b.id, []).append((self.order[id(st)], st))
+
+    def _number(self, stmts):
+        for s in stmts:
+            self.order[id(s)] = len(self.order)
+            if isinstance(s, ast.Assign):
+                for t in s.targets:
+                    self._target(t, s, s.value)
+            elif isinstance(s, ast.AnnAssign) and s.value is not None:
+                self._target(s.target, s, s.value)
+            elif isinstance(s, ast.AugAssign):
+                if isinstance(s.target, ast.Name) and isinstance(self.bind.get(s.target.id, [(0, 0, None)])[-1][2], ast.AST):
+                    self.mut.setdefault(s.target.id, []).append((self.order[id(s)], s))
+                self._target(s.target, s, None)
+            elif isinstance(s, (ast.For, ast.AsyncFor)):
+                self._target(s.target, s, None)
+            elif isinstance(s, (ast.With, ast.AsyncWith)):
+                for it in s.items:
+                    if it.optional_vars is not None:
+                        self._target(it.optional_vars, s, None)
+            elif isinstance(s, (ast.Import, ast.ImportFrom)):
+                for al in s.names:
+                    self._add((al.asname or al.name).split(".")[0], s, None)
+            elif isinstance(s, (ast.FunctionDef, ast.AsyncFunctionDef, ast.ClassDef)):
+                self._add(s.name, s, None)
+                continue
+            elif isinstance(s, ast.Delete):
+                for t in s.targets:
+                    self._target(t, s, None)
+            for e in _own_exprs(s):
+                for n in ast.walk(e):
+                    if isinstance(n, ast.NamedExpr):
+                        self._target(n.target, s, None)
+            for f in ("body", "orelse", "finalbody"):
+                self._number(getattr(s, f, None) or [])
+            for h in getattr(s, "handlers", None) or []:
+                if h.name:
+                    self._add(h.name, s, None)
+                self._number(h.body)
+
+    # -- queries
+    def before(self, a, b):
+        """statement a precedes statement b in program text order"""
+        return self.order.get(id(_stmt_of(a)), -1) < self.order.get(id(_stmt_of(b)), -1)
+
+    def _loops(self, st):
+        out, p = [], parent(st)
+        while p is not None and p is not self.fn:
+            if isinstance(p, (ast.For, ast.AsyncFor, ast.While)):
+                out.append(p)
+            p = parent(p)
+        return out
+
+    def _inside(self, st, outer):
+        p = st
+        while p is not None and p is not self.fn:
+            if p is outer:
+                return True
+            p = parent(p)
+        return False
+
+    def _dominates(self, d, use):
+        cur = use
+        while cur is not None and cur is not self.fn:
+            blk, _ = _block_of(cur)
+            if blk is not None and any(x is d for x in blk):
+                return True
+            cur = parent(cur)
+            while cur is not None and cur is not self.fn and not isinstance(cur, (ast.stmt, ast.ExceptHandler)):
+                cur = parent(cur)
+            if isinstance(cur, ast.ExceptHandler):
+                cur = parent(cur)
+        return False
+
+    def reaching(self, name, use):
+        """("def", stmt, value) | ("opaque",) for parameters, globals, loop variables | ("amb",)"""
+        bs = self.bind.get(name, [])
+        if not bs:
+            return ("opaque",)
+        uo = self.order.get(id(use))
+        if uo is None:
+            return ("amb",)
+        loops_u = self._loops(use)
+        prior = [b for b in bs if b[0] < uo]
+        if not prior:
+            if name in self.params and not any(self._inside(b[1], L) or b[1] is L for b in bs for L in loops_u):
+                return ("opaque",)
+            return ("amb",)
+        d = prior[-1]
+        if d[2] is None:
+            return ("opaque",)
+        if not self._dominates(d[1], use):
+            return ("amb",)
+        for L in loops_u:
+            if not self._inside(d[1], L) and any((self._inside(b[1], L) or b[1] is L) for b in bs):
+                return ("amb",)
+        if not _is_view(d[2]):
+            # a computed value that is then updated in place through the name is no longer its defining expression
+            for (o, s) in self.mut.get(name, []):
+                if d[0] < o < uo or any(self._inside(s, L) and not self._inside(d[1], L) for L in loops_u):
+                    return ("opaque",)
+        return ("def", d[1], d[2])
+
+    def _stale(self, dst, value, use0):
+        do, uo = self.order[id(dst)], self.order[id(use0)]
+        loops = [L for L in self._loops(use0) if not self._inside(dst, L)]
+
+        def hit(o, s):
+            return (do < o < uo) or any(self._inside(s, L) or s is L for L in loops)
+        local = _bound_inside(value)
+        for n in ast.walk(value):
+            if isinstance(n, ast.Name) and n.id not in local:
+                for (o, s, _) in self.bind.get(n.id, []):
+                    if s is not dst and hit(o, s):
+                        return True
+            elif isinstance(n, ast.Attribute):
+                t = src(n)
+                for (o, s, text) in self.attr_stores:
+                    if text == t and s is not dst and hit(o, s):
+                        return True
+        return False
+
+    def x(self, node, stop=(), use=None):
+        """the expression with local names replaced by their definitions; self.amb = names that could not be resolved uniquely"""
+        use0 = use if use is not None else _stmt_of(node)
+        self.amb = set()
+        env = self
+
+        def rec(e, at, depth):
+            local = _bound_inside(e)
+
+            class T(ast.NodeTransformer):
+                def visit_Name(self_, n):
+                    if not isinstance(n.ctx, ast.Load) or n.id in stop or n.id in local:
+                        return n
+                    r = env.reaching(n.id, at)
+                    if r[0] == "opaque":
+                        return n
+                    if r[0] == "amb":
+                        env.amb.add(n.id)
+                        return n
+                    _, dst, val = r
+                    if depth > 12 or env._stale(dst, val, use0):
+                        env.amb.add(n.id)
+                        return n
+                    return rec(_clone(val), dst, depth + 1)
+            return T().visit(e)
+        if use0 is None or id(use0) not in self.order:
+            return _clone(node)
+        return rec(_clone(node), use0, 0)
+
+    def xs(self, node, stop=(), use=None):
+        return src(self.x(node, stop, use))
+
+
+def _is_view(e):
+    """name, attribute chain or element/slice of one: an expression that denotes storage, not a freshly computed value"""
+    while isinstance(e, (ast.Attribute, ast.Subscript)):
+        e = e.value
+    return isinstance(e, ast.Name)
+
+
+def _bound_inside(e):
+    """names bound by comprehensions / lambdas inside an expression"""
+    out = set()
+    for n in ast.walk(e):
+        if isinstance(n, ast.comprehension):
+            for t in ast.walk(n.target):
+                if isinstance(t, ast.Name):
+                    out.add(t.id)
+        elif isinstance(n, ast.Lambda):
+            out |= set(_params(n))
+    return out
+
+
+def env_of(chk, fn):
+    cache = chk.__dict__.setdefault("_c14_envs", {})
+    if id(fn) not in cache:
+        cache[id(fn)] = (fn, Env(fn))
+    return cache[id(fn)][1]
+
+
+VIEWED = {f"{CLS}.getModes", f"{CLS}.findPotential", f"{CLS}.solveEquation", f"{CLS}.solveEquationForFunction", f"{QNC}.solveEquation",
+          f"DensityFinder.getPerturbedRho", f"DensityFinder.getRho"}
+
+
+class ViewedCheck:
+    """the check, with fullSimulation.main and the entry points of the solver presented as their flat views (local helper
+    functions / new helper methods written back at their calls): the layout typestate engine of C05 walks the statements of main
+    and reads the layout asserts in the bodies of the entry points; it does not follow calls"""
+
+    def __init__(self, chk):
+        self.__dict__["_chk"] = chk
+
+    def func(self, rel, q):
+        if rel == U.DRIVER and q == "main":
+            self._chk.func(rel, q)
+            return flat_function(self._chk, rel, q)
+        if rel == U.POISSON and q in VIEWED:
+            self._chk.func(rel, q)
+            return flat_view(self._chk, rel, *q.split("."))
+        return self._chk.func(rel, q)
+
+    def __getattr__(self, name):
+        return getattr(self._chk, name)
+
+    def __setattr__(self, name, value):
+        setattr(self._chk, name, value)
+
+
+# =========================================================================================================
+# symbolic helpers
+# =========================================================================================================
+
+def _sym(e, table):
+    """arithmetic expression -> sympy, every name/attribute/subscript an opaque symbol keyed by its source"""
+    if isinstance(e, ast.Constant) and isinstance(e.value, (int, float)) and not isinstance(e.value, bool):
+        return sp.nsimplify(e.value)
+    if isinstance(e, ast.BinOp) and type(e.op) in (ast.Add, ast.Sub, ast.Mult, ast.Div, ast.Pow):
+        a, b = _sym(e.left, table), _sym(e.right, table)
+        return {ast.Add: a + b, ast.Sub: a - b, ast.Mult: a * b, ast.Div: a / b, ast.Pow: a ** b}[type(e.op)]
+    if isinstance(e, ast.UnaryOp) and isinstance(e.op, ast.USub):
+        return -_sym(e.operand, table)
+    if isinstance(e, ast.UnaryOp) and isinstance(e.op, ast.UAdd):
+        return _sym(e.operand, table)
+    if isinstance(e, (ast.Name, ast.Attribute, ast.Subscript)):
+        return table.setdefault(src(e), sp.Symbol("s%d" % len(table)))
+    raise KeyError(src(e))
+
+
+def _atomic(e):
+    """is every leaf of the arithmetic expression a plain reference (name, attribute chain, element/slice by constants)?
+    Only then do two different leaves denote different values"""
+    if isinstance(e, ast.Constant):
+        return True
+    if isinstance(e, ast.BinOp):
+        return _atomic(e.left) and _atomic(e.right)
+    if isinstance(e, ast.UnaryOp):
+        return _atomic(e.operand)
+    while isinstance(e, (ast.Attribute, ast.Subscript)):
+        if isinstance(e, ast.Subscript):
+            idx = e.slice.elts if isinstance(e.slice, ast.Tuple) else [e.slice]
+            for i_ in idx:
+                parts = [i_.lower, i_.upper, i_.step] if isinstance(i_, ast.Slice) else [i_]
+                for p_ in parts:
+                    if p_ is None:
+                        continue
+                    if isinstance(p_, ast.UnaryOp) and isinstance(p_.op, ast.USub):
+                        p_ = p_.operand
+                    if not isinstance(p_, (ast.Constant, ast.Name)):
+                        return False
+        e = e.value
+    return isinstance(e, ast.Name)
+
+
+def arith_equal(code, spec_src):
+    """True / False / None: the arithmetic expression `code` equals the expression written in `spec_src`; None when the
+    code is not arithmetic over plain references"""
+    try:
+        spec = ast.parse(spec_src, mode="eval").body
+        tb = {}
+        b = _sym(spec, tb)
+        known = set(tb)
+        a = _sym(code, tb)
+    except (KeyError, SyntaxError):
+        return None
+    if alg_equal(sp.expand(a), sp.expand(b)):
+        return True
+    # a different arithmetic over the same plain references is a different value; other references may denote the same thing
+    return False if _atomic(code) and set(tb) <= known else None
+
 
 # symbols of the element-wise model: Q[...] = sum over quadrature points of  weights*halfwidth*(...)
 W, MF, X = sp.symbols("W MF X")
 PHI0, PHI1, PSI0, PSI1 = sp.symbols("PHI0 PHI1 PSI0 PSI1")      # trial phi_{s_j} / test-row psi_i and derivatives
 A_, B_, C_, D_, E_ = sp.symbols("A B C D E")                     # coefficient functions at the quadrature points
 
-FACTOR_TABLE = {
-    "np.tile(self._weights, end - start)": W, "multFactor": MF, "evalPts": X,
-    "self._rspline[s_j].eval(evalPts)": PHI0, "self._rspline[s_j].eval(evalPts, 1)": PHI1,
-    "spline.eval(evalPts)": PSI0, "spline.eval(evalPts, 1)": PSI1,
-    "ddrFactor(evalPts)": A_, "drFactor(evalPts)": B_, "rFactor(evalPts)": C_, "ddThetaFactor(evalPts)": D_,
-    "rhoFactor(evalPts)": E_,
-}
+COEFF_FUNCS = {"ddrFactor": A_, "drFactor": B_, "rFactor": C_, "ddThetaFactor": D_, "rhoFactor": E_}
 
 
-def to_sym(e, env):
+class WrongBasis(Exception):
+    """an integrand evaluates a basis function that is neither the row nor the column function of the entry"""
+
+
+def factor_table(sj="s_j", iv="i"):
+    t = {
+        "np.tile(self._weights, end - start)": W, "multFactor": MF, "self._multFactor": MF, "evalPts": X,
+        # basis function values: the column (trial) function s_j and the row (test) function i
+        ("basis", sj, 0): PHI0, ("basis", sj, 1): PHI1, ("basis", iv, 0): PSI0, ("basis", iv, 1): PSI1,
+        ("names", sj, iv): None,
+    }
+    for k, v in COEFF_FUNCS.items():
+        t[f"{k}(evalPts)"] = v
+    return t
+
+
+FACTOR_TABLE = factor_table()
+# the vocabulary of the element-wise model: these locals are not expanded (each has its own rule)
+ASSEMBLY_STOP = {"evalPts", "multFactor", "start", "end", "ddrFactor", "drFactor", "rFactor", "ddThetaFactor", "rhoFactor"}
+
+
+class _TableLookup(ast.NodeTransformer):
+    """[f(k) for k in range(n)][idx]  ->  f(idx): an element of a table built by a comprehension over its positions"""
+
+    def visit_Subscript(self, node):
+        self.generic_visit(node)
+        v = node.value
+        if isinstance(v, ast.ListComp) and len(v.generators) == 1 and not v.generators[0].ifs and isinstance(v.generators[0].target, ast.Name) \
+                and not isinstance(node.slice, (ast.Slice, ast.Tuple)):
+            it = v.generators[0].iter
+            if isinstance(it, ast.Call) and src(it.func) == "range" and not it.keywords and \
+                    (len(it.args) == 1 or (len(it.args) == 2 and src(it.args[0]) == "0")):
+                return _Sub({}, {v.generators[0].target.id: node.slice}).visit(_clone(v.elt))
+        return node
+
+
+def to_sym(e, env, table=None):
     """arithmetic over the recognised factors -> sympy; np.sum(x) -> Q*x is handled by the caller"""
+    table = FACTOR_TABLE if table is None else table
     s = src(e)
-    if s in FACTOR_TABLE:
-        return FACTOR_TABLE[s]
+    if s in table:
+        return table[s]
+    if isinstance(e, ast.Call) and isinstance(e.func, ast.Attribute) and e.func.attr == "eval" and e.args and src(e.args[0]) == "evalPts" \
+            and not e.keywords and len(e.args) <= 2 and isinstance(e.func.value, ast.Subscript) and src(e.func.value.value) == "self._rspline":
+        der = 0
+        if len(e.args) == 2:
+            if not (isinstance(e.args[1], ast.Constant) and e.args[1].value in (0, 1)):
+                raise KeyError(s)
+            der = e.args[1].value
+        idx = src(e.func.value.slice)
+        if ("basis", idx, der) in table:
+            return table[("basis", idx, der)]
+        names = [k for k in table if isinstance(k, tuple) and k[0] == "names"]
+        if names and all(arith_equal(e.func.value.slice, nm) is False for nm in names[0][1:]):
+            raise WrongBasis(idx)
+        raise KeyError(s)
     if isinstance(e, ast.Name) and e.id in env:
         return env[e.id]
     if isinstance(e, ast.BinOp):
-        a, b = to_sym(e.left, env), to_sym(e.right, env)
+        a, b = to_sym(e.left, env, table), to_sym(e.right, env, table)
         if isinstance(e.op, ast.Mult):
             return a * b
         if isinstance(e.op, ast.Add):
@@ -45,26 +774,35 @@ def to_sym(e, env):
         if isinstance(e.op, ast.Div):
             return a / b
     if isinstance(e, ast.UnaryOp) and isinstance(e.op, ast.USub):
-        return -to_sym(e.operand, env)
-    if isinstance(e, ast.Call) and src(e.func) in ("np.sum", "numpy.sum") and len(e.args) == 1:
-        return to_sym(e.args[0], env)          # Q is linear: compare integrands
-    if isinstance(e, ast.Constant) and isinstance(e.value, (int, float)):
+        return -to_sym(e.operand, env, table)
+    if isinstance(e, ast.Call) and src(e.func) in ("np.sum", "numpy.sum") and len(e.args) == 1 and not e.keywords:
+        return to_sym(e.args[0], env, table)          # Q is linear: compare integrands
+    if isinstance(e, ast.Call) and isinstance(e.func, ast.Attribute) and e.func.attr == "sum" and not e.args and not e.keywords:
+        return to_sym(e.func.value, env, table)
+    if isinstance(e, ast.Constant) and isinstance(e.value, (int, float)) and not isinstance(e.value, bool):
         return sp.nsimplify(e.value)
     raise KeyError(s)
 
 
 BLOCKS = ("self._dPhidPsi", "self._dPhiPsi", "self._PhiPsi", "self._k2PhiPsi", "self._massMatrix")
+LISTS = ("massCoeffs", "k2PhiPsiCoeffs", "PhiPsiCoeffs", "dPhidPsiCoeffs", "dPhiPsiCoeffs")
 
 
-def block_lists(fn):
+def _diags_call(v):
+    while isinstance(v, ast.Subscript):       # restriction to the unknowns' rows/columns
+        v = v.value
+    if isinstance(v, ast.Call) and src(v.func).split(".")[-1] == "diags":
+        return v
+    return None
+
+
+def block_lists(fn, env=None):
     """self._X = sparse.diags(<list>, ...)  ->  {self._X: list name}"""
     out = {}
     for n in ast.walk(fn):
         if isinstance(n, ast.Assign) and src(n.targets[0]) in BLOCKS:
-            v = n.value
-            while isinstance(v, ast.Subscript):       # restriction to the unknowns' rows/columns
-                v = v.value
-            if isinstance(v, ast.Call) and src(v.func).endswith("diags") and v.args and isinstance(v.args[0], ast.Name):
+            v = _diags_call(env.x(n.value, stop=set(LISTS), use=n) if env is not None else n.value)
+            if v is not None and v.args and isinstance(v.args[0], ast.Name):
                 out[src(n.targets[0])] = v.args[0].id
     return out
 
@@ -92,34 +830,97 @@ def block_vector(e, stiff=None):
 
 def operator_blocks(chk):
     """coefficients of the blocks in DiffEqSolver's theta-independent operator, or None"""
-    fn = chk.func(U.POISSON, f"{CLS}.__init__")
+    fn = flat_view(chk, U.POISSON, CLS, "__init__")
+    env = env_of(chk, fn)
     d = [n for n in ast.walk(fn) if isinstance(n, ast.Assign) and src(n.targets[0]) == "self._stiffnessMatrix"]
     if len(d) != 1:
         return None
     try:
-        return block_vector(d[0].value)
+        return block_vector(env.x(d[0].value))
     except KeyError:
         return None
 
 
+# =========================================================================================================
+# assembly
+# =========================================================================================================
+
+DEG, NB = "self._rspline.degree", "self._rspline.nbasis"
+
+
+def quadrature_order(chk, fn, env, narg, site):
+    """Gauss-Legendre with n points is exact up to degree 2n-1: n must reach the requested degree for every degree"""
+    q = f"{CLS}.__init__"
+    ex = env.x(narg, use=_stmt_of(site))
+    text = src(ex)
+    ok, why = None, f"number of quadrature points `{text}` is not an integer expression of the requested degree"
+    allowed_calls = {"min": min, "max": max, "int": int, "abs": abs}
+    good = not env.amb
+    pname = "__p"
+    e2 = ast.parse(text, mode="eval")
+
+    class R(ast.NodeTransformer):
+        def visit_Attribute(self_, n):
+            if src(n) in (DEG, "rspline.degree"):
+                return ast.copy_location(ast.Name(id=pname, ctx=ast.Load()), n)
+            return self_.generic_visit(n)
+    e2 = ast.fix_missing_locations(R().visit(e2))
+    for n in ast.walk(e2):
+        if isinstance(n, ast.Name) and n.id not in ("degree", pname) and n.id not in allowed_calls:
+            good = False
+        elif isinstance(n, ast.Call) and not (isinstance(n.func, ast.Name) and n.func.id in allowed_calls and not n.keywords):
+            good = False
+        elif isinstance(n, (ast.Attribute, ast.Subscript, ast.Lambda, ast.ListComp, ast.GeneratorExp, ast.Await, ast.Yield)):
+            good = False
+    if good:
+        try:
+            code = compile(e2, "<npoints>", "eval")
+            worst = None
+            for p in range(1, 6):
+                for deg in range(0, 41):
+                    n = eval(code, {"__builtins__": {}}, dict(allowed_calls, degree=deg, **{pname: p}))
+                    if n != int(n) or 2 * int(n) - 1 < deg:
+                        if worst is None:
+                            worst = (deg, p, n)
+            ok = worst is None
+            if ok:
+                why = (f"leggauss({text}): n points integrate polynomials of degree 2n-1 exactly and 2n-1 >= degree for every requested "
+                       "degree (checked for degree 0..40, spline degrees 1..5)")
+            else:
+                deg, p, n = worst
+                why = (f"the number of Gauss-Legendre points is `{text}`: for requested degree {deg} (spline degree {p}) this gives n={n}, "
+                       f"exact only up to degree {2 * int(n) - 1 if n == int(n) else '?'} < {deg}: the quadrature no longer has the requested "
+                       "exactness, so integrands with the coefficient functions A..E (which the `degree` argument accounts for) are "
+                       "integrated with a lower order than asked for")
+        except Exception as e:
+            ok, why = None, f"number of quadrature points `{text}` could not be evaluated: {e}"
+    chk.ob("F4-quadrature-order", site, f"leggauss({text})", ok, why, file=U.POISSON, func=q)
+
+
 def assembly(chk):
-    fn = chk.func(U.POISSON, f"{CLS}.__init__")
-    # innermost assembly loop
-    loops = [n for n in ast.walk(fn) if isinstance(n, ast.For) and src(n.iter).startswith("enumerate(range(i,")]
+    fn = flat_view(chk, U.POISSON, CLS, "__init__")
+    env = env_of(chk, fn)
+    q = f"{CLS}.__init__"
+    # innermost assembly loop: `for j, s_j in enumerate(range(i, ...), degree)` or `for s_j in range(i, ...)`, the loop whose
+    # statements store into the diagonal lists
+    loops = []
+    for n in ast.walk(fn):
+        if not isinstance(n, ast.For) or not any(
+                isinstance(s_, ast.Assign) and isinstance(s_.targets[0], ast.Subscript) and isinstance(s_.targets[0].value, ast.Subscript)
+                and isinstance(s_.targets[0].value.value, ast.Name) and s_.targets[0].value.value.id in LISTS for s_ in n.body):
+            continue
+        it = env.x(n.iter)
+        if isinstance(n.target, ast.Tuple) and len(n.target.elts) == 2 and all(isinstance(e, ast.Name) for e in n.target.elts) and \
+                isinstance(it, ast.Call) and src(it.func) == "enumerate" and it.args and isinstance(it.args[0], ast.Call) \
+                and src(it.args[0].func) == "range":
+            loops.append((n, it, it.args[0], n.target.elts[0].id, n.target.elts[1].id))
+        elif isinstance(n.target, ast.Name) and isinstance(it, ast.Call) and src(it.func) == "range":
+            loops.append((n, it, it, None, n.target.id))
     if len(loops) != 1:
         raise AnalysisError("C14: assembly loop `for j, s_j in enumerate(range(i, ...), degree)` not found")
-    lp = loops[0]
-    it = src(lp.iter).replace(" ", "")
-    ok_it = it == "enumerate(range(i,min(i+self._rspline.degree+1,self._rspline.nbasis)),self._rspline.degree)" and \
-        src(lp.target).replace(" ", "") in ("(j,s_j)", "j,s_j")
-    chk.pat("F4-assembly-indexing", lp, src(lp.iter)[:100], ok_it,
-            "entry j of the diagonal list is the diagonal of offset j-degree, i.e. column s_j = i + (j - degree) of row i",
-            file=U.POISSON, func=f"{CLS}.__init__")
+    lp, it, rng, jn, sjn = loops[0]
     outer = parent(lp)
-    ok_sp = isinstance(outer, ast.For) and any(isinstance(s, ast.Assign) and src(s.targets[0]) == "spline" and
-                                               src(s.value) == "self._rspline[i]" for s in outer.body)
-    chk.pat("F4-assembly-indexing", outer, "spline = self._rspline[i]", ok_sp, "`spline` is basis function i (the row)",
-            file=U.POISSON, func=f"{CLS}.__init__")
+    iv = outer.target.id if isinstance(outer, ast.For) and isinstance(outer.target, ast.Name) else "i"
     UP = "j"
     LOW = "self._rspline.degree * 2 - j"
     spec = {
@@ -138,79 +939,194 @@ def assembly(chk):
                           "extra term on the trial/column function)",
         "dPhiPsiCoeffs": "dPhiPsi = Q[B phi' psi r] (derivative on the trial/column function)",
     }
-    env = {}
+    table = factor_table(sjn, iv)
+    stop = ASSEMBLY_STOP | {jn, sjn, iv}
+    wrong_basis = []
     seen = set()
+    unkeyed = set()
+    misplaced = []
     block_got = {}
+    # entry L of a diagonal list is the diagonal of offset a + L of the block built by sparse.diags(list, range(a, b)); the counter
+    # j of the loop is (start + k) for the column s_j = i + k: an upper entry needs a + L = k, its mirror image a + L = -k
+    offsets = {}
+    for n in ast.walk(fn):
+        if isinstance(n, ast.Assign) and src(n.targets[0]) in BLOCKS:
+            c = _diags_call(env.x(n.value, stop=set(LISTS), use=n))
+            if c is not None and c.args and isinstance(c.args[0], ast.Name):
+                off = c.args[1] if len(c.args) > 1 else next((k.value for k in c.keywords if k.arg == "offsets"), None)
+                ox = off
+                unresolved = ({x.id for x in ast.walk(ox) if isinstance(x, ast.Name)} & env.amb) if ox is not None else set()
+                if isinstance(ox, ast.Call) and src(ox.func) == "range" and len(ox.args) in (1, 2) and not ox.keywords and not unresolved:
+                    lo = ox.args[0] if len(ox.args) == 2 else ast.Constant(value=0)
+                    offsets[c.args[0].id] = (lo, ox.args[-1], n)
+    start = None
+    if jn is not None:
+        start = it.args[1] if len(it.args) > 1 else next((k.value for k in it.keywords if k.arg == "start"), ast.Constant(value=0))
     for st in lp.body:
         if not isinstance(st, ast.Assign):
             continue
         t = st.targets[0]
-        if isinstance(t, ast.Name):
-            try:
-                env[t.id] = to_sym(st.value, env)
-            except KeyError:
-                pass
+        if not (isinstance(t, ast.Subscript) and isinstance(t.value, ast.Subscript) and isinstance(t.value.value, ast.Name)):
             continue
-        if isinstance(t, ast.Subscript) and isinstance(t.value, ast.Subscript) and isinstance(t.value.value, ast.Name):
-            name = t.value.value.id
-            diag = src(t.value.slice)
+        name = t.value.value.id
+        dslice = env.x(t.value.slice, stop=stop, use=st)
+        diag = src(dslice)
+        shift = None
+        if name in offsets:
             try:
                 tb = {}
-                dsym = sp.expand(_sym(t.value.slice, tb))
-                inv = {v: k for k, v in tb.items()}
-                if set(tb) <= {"j", "self._rspline.degree"}:
-                    jj, dd = tb.get("j"), tb.get("self._rspline.degree")
-                    if jj is not None and dsym == jj:
-                        diag = UP
-                    elif jj is not None and dd is not None and sp.expand(dsym - (2 * dd - jj)) == 0:
-                        diag = LOW
+                # k = s_j - i, the distance of the column from the row: the counter minus its start, or the difference itself
+                if jn is not None:
+                    kk = _sym(ast.Name(id=jn, ctx=ast.Load()), tb) - _sym(start, tb)
+                else:
+                    kk = _sym(ast.Name(id=sjn, ctx=ast.Load()), tb) - _sym(ast.Name(id=iv, ctx=ast.Load()), tb)
+                L_, a_ = _sym(dslice, tb), _sym(offsets[name][0], tb)
+                e_up, e_low = sp.expand(a_ + L_ - kk), sp.expand(a_ + L_ + kk)
+                loopsyms = {tb[x] for x in (jn, sjn, iv) if x in tb}
+                if e_up == 0:
+                    diag = UP
+                elif e_low == 0:
+                    diag = LOW
+                elif _atomic(dslice) and _atomic(offsets[name][0]) and (start is None or _atomic(start)):
+                    if not (e_up.free_symbols & loopsyms):
+                        shift = ("k", e_up)
+                    elif not (e_low.free_symbols & loopsyms):
+                        shift = ("-k", e_low)
             except KeyError:
                 pass
-            row = src(t.slice)
-            key = (name, diag)
-            if key not in spec:
-                if name in what:
-                    chk.ob("F4-weak-form", st, src(t), None, f"diagonal index `{diag}` not recognised", file=U.POISSON, func=f"{CLS}.__init__")
-                continue
-            seen.add(key)
-            try:
-                got = to_sym(st.value, env)
-            except KeyError as e:
-                chk.ob("F4-weak-form", st, src(t), None, f"integrand contains an unrecognised factor {e}", file=U.POISSON,
-                       func=f"{CLS}.__init__")
-                continue
-            ok = row == "i" and alg_equal(sp.expand(got), sp.expand(spec[key]))
-            block_got[key] = sp.expand(got)
-            if not ok and row == "i" and name in ("dPhidPsiCoeffs", "dPhiPsiCoeffs", "PhiPsiCoeffs") and \
-                    alg_equal(sp.expand(got), sp.expand(-spec[key])):
-                # a block stored with the opposite sign is a convention; the assembled operator decides (F4-weak-form-operator)
-                chk.ob("F4-weak-form", st, f"{name}[{diag}][{row}]", True, what[name] + " - stored with the opposite sign; the sign is "
-                       "accounted for where the operator is assembled", file=U.POISSON, func=f"{CLS}.__init__")
-                continue
-            chk.ob("F4-weak-form", st, f"{name}[{diag}][{row}]", ok, what[name] if ok else
-                   f"integrand {sp.expand(got)} differs from the weak form {sp.expand(spec[key])} ({what[name]})",
-                   file=U.POISSON, func=f"{CLS}.__init__", facts={"code": str(sp.expand(got)), "spec": str(sp.expand(spec[key]))})
+        row = src(t.slice)
+        key = (name, diag)
+        if shift is not None and name in what:
+            misplaced.append(name)
+            inv_ = {v: k for k, v in tb.items()}
+            sh = str(shift[1].subs({v: sp.Symbol(k.replace("self._rspline.", "")) for v, k in inv_.items()}))
+            chk.ob("F4-assembly-indexing", st, f"{name}[{src(dslice)}][{row}]", False,
+                   f"the integral of row {iv} and column {sjn} = {iv} + k is stored in list entry `{src(dslice)}`, which "
+                   f"sparse.diags(..., range({src(offsets[name][0])}, ...)) places on the diagonal of offset {shift[0]} + ({sh}) instead of "
+                   f"{shift[0]}: the entries of this block are on the wrong diagonals", file=U.POISSON, func=q)
+            key = (name, UP if shift[0] == "k" else LOW)       # the integrand is still judged
+            diag = key[1]
+        if key not in spec:
+            if name in what:
+                unkeyed.add(name)
+                chk.ob("F4-weak-form", st, src(t), None, f"diagonal index `{diag}` not recognised", file=U.POISSON, func=q)
+            continue
+        seen.add(key)
+        val = _TableLookup().visit(env.x(st.value, stop=stop, use=st))
+        try:
+            got = to_sym(val, {}, table)
+        except WrongBasis as e:
+            wrong_basis.append((st, str(e)))
+            chk.ob("F4-weak-form", st, src(t), None, f"integrand evaluates basis function `{e}`", file=U.POISSON, func=q)
+            continue
+        except KeyError as e:
+            chk.ob("F4-weak-form", st, src(t), None, f"integrand contains an unrecognised factor {e}", file=U.POISSON, func=q)
+            continue
+        if row != iv:
+            chk.ob("F4-weak-form", st, src(t), None, f"entry position `{row}` is not the row index `{iv}`", file=U.POISSON, func=q)
+            continue
+        ok = alg_equal(sp.expand(got), sp.expand(spec[key]))
+        block_got[key] = sp.expand(got)
+        if not ok and name in ("dPhidPsiCoeffs", "dPhiPsiCoeffs", "PhiPsiCoeffs") and \
+                alg_equal(sp.expand(got), sp.expand(-spec[key])):
+            # a block stored with the opposite sign is a convention; the assembled operator decides (F4-weak-form-operator)
+            chk.ob("F4-weak-form", st, f"{name}[{diag}][{row}]", True, what[name] + " - stored with the opposite sign; the sign is "
+                   "accounted for where the operator is assembled", file=U.POISSON, func=q)
+            continue
+        chk.ob("F4-weak-form", st, f"{name}[{diag}][{row}]", ok, what[name] if ok else
+               f"integrand {sp.expand(got)} differs from the weak form {sp.expand(spec[key])} ({what[name]})",
+               file=U.POISSON, func=q, facts={"code": str(sp.expand(got)), "spec": str(sp.expand(spec[key]))})
+    # the functions integrated are the row function i and the column function s_j of the entry
+    okf = bool(seen) and not unkeyed and not wrong_basis and len(block_got) == len(seen)
+    bad = None
+    if wrong_basis:
+        bad = (f"the entry of row {iv} and column {sjn} integrates basis function `{wrong_basis[0][1]}`, which is neither the row "
+               f"function self._rspline[{iv}] nor the column function self._rspline[{sjn}]")
+    chk.pat("F4-assembly-indexing", outer if isinstance(outer, ast.For) else lp, f"spline = self._rspline[{iv}]", okf,
+            "the test function of every entry is basis function i (the row), the trial function basis function s_j (the column)", bad,
+            file=U.POISSON, func=q)
+    # the loop header: columns i .. i+degree of row i (the relation counter <-> diagonal is judged statement by statement above)
+    ok_it = same_expr(rng, f"range({iv}, min({iv} + {DEG} + 1, {NB}))") and not unkeyed and bool(seen)
+    bad = None
+    if len(rng.args) >= 2 and arith_equal(rng.args[0], iv) is False:
+        bad = (f"the columns `{sjn}` start at `{src(rng.args[0])}` instead of the row `{iv}`: the upper diagonals no longer pair "
+               f"row {iv} with columns {iv}..{iv}+degree")
+    if not misplaced:
+        chk.pat("F4-assembly-indexing", lp, src(it)[:100], ok_it,
+                "columns s_j = i + k, k = 0..degree, of row i; every entry is stored in the list entry that sparse.diags places on "
+                "diagonal k (and -k for the mirrored ones)", bad, file=U.POISSON, func=q)
     missing = set(spec) - seen
     if missing:
-        chk.ob("F4-weak-form", lp, "assembly statements", False, f"no assembly statement for {sorted(missing)}", file=U.POISSON,
-               func=f"{CLS}.__init__")
+        # entries written by statements this rule did not key (other loop, other index form) cannot be judged
+        elsewhere = {n.targets[0].value.value.id for n in ast.walk(fn) if isinstance(n, ast.Assign)
+                     and isinstance(n.targets[0], ast.Subscript) and isinstance(n.targets[0].value, ast.Subscript)
+                     and isinstance(n.targets[0].value.value, ast.Name) and not any(n is s_ for s_ in lp.body)}
+        decided = not any(nm in unkeyed or nm in elsewhere for nm, _ in missing)
+        chk.ob("F4-weak-form", lp, "assembly statements", False if decided else None,
+               f"no assembly statement for {sorted(missing)}" + (": these diagonals stay zero" if decided else
+                                                                  " in the recognised form (written elsewhere?)"), file=U.POISSON, func=q)
     # symmetric forms: lower diagonals are references to the upper ones
-    s = src(fn)
     for nm in ("massCoeffs", "k2PhiPsiCoeffs", "PhiPsiCoeffs"):
-        ok = f"{nm}.extend({nm}[-2::-1])" in s
+        base = nm
+        r_ = env.reaching(nm, lp)
+        if r_[0] == "def" and isinstance(r_[2], ast.Name):
+            base = r_[2].id                      # the list under the name it was built with
+        ok = contains(fn, f"{base}.extend({base}[-2::-1])")
+        bad = None
+        if not ok:
+            defs = [n for n in ast.walk(fn) if isinstance(n, ast.Assign) and src(n.targets[0]) == nm]
+            ext = [n for n in ast.walk(fn) if isinstance(n, ast.Call) and isinstance(n.func, ast.Attribute)
+                   and src(n.func.value) == nm and n.func.attr in ("extend", "append", "insert")]
+            aug = [n for n in ast.walk(fn) if isinstance(n, ast.AugAssign) and src(n.target) == nm]
+            full = len(defs) == 1 and isinstance(defs[0].value, ast.ListComp) and \
+                same_expr(env.x(defs[0].value.generators[0].iter, use=defs[0]), f"range(-{DEG}, {DEG} + 1)")
+            if full and not ext and not aug and (nm, LOW) not in seen and nm not in unkeyed and (nm, UP) in seen:
+                bad = (f"`{nm}` is created with 2*degree+1 independent diagonals and the assembly fills only the upper ones: the lower "
+                       "diagonals of this symmetric block stay zero, the matrix is not the symmetric form")
         chk.pat("F4-symmetric-storage", fn, f"{nm}.extend({nm}[-2::-1])", ok,
-                "lower diagonals alias the upper ones (symmetric form filled once)", file=U.POISSON, func=f"{CLS}.__init__")
+                "lower diagonals alias the upper ones (symmetric form filled once)", bad, file=U.POISSON, func=q)
     # quadrature points / half width
-    from ..core import contains as _contains
-    okq = _contains(fn, "multFactor = (self._rspline.breaks[1] - self._rspline.breaks[0]) * 0.5") and \
-        _contains(fn, "startPoints = (self._rspline.breaks[1:] + self._rspline.breaks[:-1]) * 0.5") and \
-        _contains(fn, "self._evalPts = startPoints[:, None] + points[None, :] * multFactor") and \
-        _contains(fn, "points, self._weights = leggauss(n)")
-    chk.pat("F4-quadrature-points", fn, "Gauss-Legendre points mapped to the cells", okq,
-            "points = cell midpoint + reference point x half width, weights x half width", file=U.POISSON, func=f"{CLS}.__init__")
+    quad = [n for n in ast.walk(fn) if isinstance(n, ast.Assign) and isinstance(n.value, ast.Call)
+            and src(n.value.func).split(".")[-1] == "leggauss"]
+    if len(quad) == 1 and len(quad[0].value.args) == 1 and not quad[0].value.keywords:
+        tg = quad[0].targets[0]
+        okl = isinstance(tg, ast.Tuple) and len(tg.elts) == 2 and src(tg.elts[0]) == "points" and src(tg.elts[1]) == "self._weights"
+        bad = None
+        if not okl and isinstance(tg, ast.Tuple) and len(tg.elts) == 2 and src(tg.elts[0]) == "self._weights" and src(tg.elts[1]) == "points":
+            bad = "leggauss returns (points, weights): the weights are used as points and the points as weights"
+        chk.pat("F4-quadrature-points", quad[0], "points, self._weights = leggauss(n)", okl,
+                "reference Gauss-Legendre points and weights on [-1, 1]", bad, file=U.POISSON, func=q)
+        quadrature_order(chk, fn, env, quad[0].value.args[0], quad[0])
+    else:
+        chk.ob("F4-quadrature-points", fn, "points, self._weights = leggauss(n)", None, "call of leggauss(n) not found", file=U.POISSON, func=q)
+        chk.ob("F4-quadrature-order", fn, "leggauss(n)", None, "call of leggauss(n) not found", file=U.POISSON, func=q)
+    half = "(self._rspline.breaks[1] - self._rspline.breaks[0]) * 0.5"
+    items = []
+    r = env.reaching("multFactor", lp)
+    items.append(("multFactor", r[2] if r[0] == "def" else None, r[1] if r[0] == "def" else None, (), half,
+                  "half width of a cell", "the quadrature weights are scaled by `{got}` instead of the half cell width (b1 - b0)/2: "
+                  "every integral is off by a constant factor or wrong on non-matching cells"))
+    ep = [n for n in ast.walk(fn) if isinstance(n, ast.Assign) and src(n.targets[0]) == "self._evalPts"]
+    items.append(("self._evalPts", ep[0].value if len(ep) == 1 else None, ep[0] if len(ep) == 1 else None, ("startPoints", "points", "multFactor"),
+                  "startPoints[:, None] + points[None, :] * multFactor", "cell midpoint + reference point x half width",
+                  "the quadrature points are `{got}` instead of midpoint + reference point x half width: the integrands are sampled "
+                  "at points that are not the Gauss-Legendre points of the cells"))
+    if len(ep) == 1:
+        r = env.reaching("startPoints", ep[0])
+        items.append(("startPoints", r[2] if r[0] == "def" else None, r[1] if r[0] == "def" else None, (),
+                      "(self._rspline.breaks[1:] + self._rspline.breaks[:-1]) * 0.5", "cell midpoints",
+                      "the cell midpoints are `{got}` instead of (b[k+1] + b[k])/2: the quadrature points leave their cells"))
+    for nm, val, at, stop_, spec_src, good_, bad_ in items:
+        res, got = None, "?"
+        if val is not None:
+            ex = env.x(val, stop=stop_, use=at)
+            got = src(ex)
+            res = arith_equal(ex, spec_src) if not env.amb else None
+        chk.pat("F4-quadrature-points", at if at is not None else fn, f"{nm} = {spec_src}", res, good_,
+                bad_.format(got=got[:80]) if res is False else None, file=U.POISSON, func=q)
     # operator composition: the assembled theta-independent operator, block by block
     vec = operator_blocks(chk)
-    lists = block_lists(fn)
+    lists = block_lists(fn, env)
     ok, why = None, "operator composition not extractable"
     if vec is not None and all(a_ in lists for a_ in vec):
         ok = True
@@ -235,27 +1151,92 @@ def assembly(chk):
                    f"on upper and lower diagonals; blocks {dict((k, str(v)) for k, v in vec.items())}")
         elif ok is False:
             why = "the assembled theta-independent operator is not the weak form of A phi'' + B phi' + C phi: " + "; ".join(parts)
-    chk.ob("F4-weak-form-operator", fn, "self._stiffnessMatrix = sum of blocks", ok, why, file=U.POISSON, func=f"{CLS}.__init__")
-    # diagonals -> matrices with the same offsets
-    okd = all(f"sparse.diags({nm}, diag_range, shape, 'csc')" in s.replace("\n", " ").replace("  ", " ")
-              or f"sparse.diags({nm}, diag_range," in s for nm in ("massCoeffs", "k2PhiPsiCoeffs", "PhiPsiCoeffs", "dPhidPsiCoeffs", "dPhiPsiCoeffs")) \
-        and "diag_range = range(-d, d + 1)" in s and "d = self._rspline.degree" in s
-    chk.pat("F4-operator", fn, "sparse.diags(..., range(-d, d+1))", okd, "diagonal j has offset j - degree", file=U.POISSON,
-            func=f"{CLS}.__init__")
+    chk.ob("F4-weak-form-operator", fn, "self._stiffnessMatrix = sum of blocks", ok, why, file=U.POISSON, func=q)
+    # diagonals -> matrices: 2*degree+1 consecutive offsets (which list entry lands on which offset is part of F4-assembly-indexing)
+    for n in ast.walk(fn):
+        if not (isinstance(n, ast.Assign) and src(n.targets[0]) in BLOCKS):
+            continue
+        c = _diags_call(env.x(n.value, stop=set(LISTS), use=n))
+        okd = None
+        if c is not None and c.args and isinstance(c.args[0], ast.Name) and c.args[0].id in offsets and offsets[c.args[0].id][2] is n:
+            lo, hi, _ = offsets[c.args[0].id]
+            okd = arith_equal(ast.BinOp(left=hi, op=ast.Sub(), right=lo), f"2 * {DEG} + 1") or None
+        chk.pat("F4-operator", n, f"{src(n.targets[0])} = sparse.diags(..., range(-d, d+1))", okd,
+                "the list of 2*degree+1 diagonals is placed on consecutive offsets", file=U.POISSON, func=q)
+
+
+# =========================================================================================================
+# per-mode solves
+# =========================================================================================================
+
+ENTRIES = ((CLS, "solveEquation", "_solveMode"), (CLS, "solveEquationForFunction", "_solveModeFunc"),
+           (QNC, "solveEquation", "_solveMode"))
+TABLES = ("self._mVals", "self._stiffness_range", "self._coeff_range")
+
+
+def mode_loop(chk, cls, m):
+    """(view, loop, local index name, global index name) of the per-mode loop of an entry point, or (view, None, ..)"""
+    fn = flat_view(chk, U.POISSON, cls, m)
+    env = env_of(chk, fn)
+    for lp in [n for n in ast.walk(fn) if isinstance(n, ast.For)]:
+        it = env.x(lp.iter)
+        if isinstance(lp.target, ast.Tuple) and len(lp.target.elts) == 2 and isinstance(it, ast.Call) and src(it.func) == "enumerate" \
+                and it.args and src(it.args[0]).replace(" ", "") in ("rho.getGlobalIdxVals(0)", "phi.getGlobalIdxVals(0)"):
+            return fn, lp, src(lp.target.elts[0]), src(lp.target.elts[1])
+    return fn, None, None, None
+
+
+def _reset_targets(st):
+    """boundary coefficients zeroed by a statement: subset of {0, -1}"""
+    out = set()
+    if isinstance(st, ast.Assign) and isinstance(st.value, ast.Constant) and st.value.value == 0 and not isinstance(st.value.value, bool):
+        for t in st.targets:
+            if isinstance(t, ast.Subscript) and src(t.value) == "self._coeffs":
+                s = src(t.slice).replace(" ", "")
+                if s in ("0", "-1"):
+                    out.add(int(s))
+                elif s in ("[0,-1]", "[-1,0]", "(0,-1)", "(-1,0)"):
+                    out |= {0, -1}
+    return out
+
+
+def neumann_tables(chk, fn_init):
+    q = f"{CLS}.__init__"
+    uses = [n for n in ast.walk(fn_init) if isinstance(n, ast.Assign) and src(n.targets[0]) in ("self._coeff_range", "self._stiffness_range")]
+    for u in uses:
+        v = u.value
+        ok, bad = False, None
+        if isinstance(v, ast.ListComp) and len(v.generators) == 1 and isinstance(v.generators[0].target, ast.Name) \
+                and isinstance(v.elt, ast.Call) and src(v.elt.func) == "slice" and len(v.elt.args) == 2:
+            var = v.generators[0].target.id
+            it = src(v.generators[0].iter)
+
+            def members(e):
+                return {src(c.comparators[0]) for c in ast.walk(e) if isinstance(c, ast.Compare) and len(c.ops) == 1
+                        and isinstance(c.ops[0], ast.In) and src(c.left) == var}
+            lo, hi = members(v.elt.args[0]), members(v.elt.args[1])
+            ok = it == "self._mVals" and lo == {"lNeumannIdx"} and hi == {"uNeumannIdx"}
+            if not ok and it == "self._mVals" and lo == {"uNeumannIdx"} and hi == {"lNeumannIdx"}:
+                bad = ("the lower end of the slice is decided by the upper-boundary Neumann list and the upper end by the lower-boundary "
+                       "list: modes get the boundary conditions of the opposite boundary")
+        chk.pat("F4-mode-bookkeeping", u, src(u.targets[0]), ok, "one slice per mode, lower/upper Neumann membership decided per mode",
+                bad, file=U.POISSON, func=q)
+    return uses
 
 
 def per_mode(chk):
-    fn_init = chk.func(U.POISSON, f"{CLS}.__init__")
+    fn_init = flat_view(chk, U.POISSON, CLS, "__init__")
+    env_i = env_of(chk, fn_init)
     # the numbers tested against the Neumann lists are the transform's own mode numbers
     from .C15 import mode_numbers
     mode_numbers(chk)
     # Neumann membership tests read the mode numbers before they are squared
-    sq = [n for n in fn_init.body if isinstance(n, ast.AugAssign) and src(n.target) == "self._mVals" and isinstance(n.op, ast.Mult)]
-    uses = [n for n in fn_init.body if isinstance(n, ast.Assign) and src(n.targets[0]) in ("self._coeff_range", "self._stiffness_range")]
+    sq = [n for n in fn_init.body if isinstance(n, ast.AugAssign) and src(n.target) == "self._mVals" and isinstance(n.op, (ast.Mult, ast.Pow))]
     sq += [n for n in fn_init.body if isinstance(n, ast.Assign) and src(n.targets[0]) == "self._mVals" and "self._mVals" in src(n.value)]
-    ok = len(uses) == 2 and all(u.lineno < q_.lineno for u in uses for q_ in sq)
+    uses = neumann_tables(chk, fn_init)
+    ok = len(uses) == 2 and all(env_i.before(u, q_) for u in uses for q_ in sq)
     bad = None
-    if len(uses) == 2 and any(u.lineno > q_.lineno for u in uses for q_ in sq):
+    if len(uses) == 2 and any(env_i.before(q_, u) for u in uses for q_ in sq):
         bad = "mode numbers are squared before the per-mode boundary tables are built: Neumann membership is tested on m^2"
     chk.pat("F4-mode-bookkeeping", sq[0] if sq else fn_init, "Neumann membership decided on m, before any squaring of self._mVals", ok,
             "boundary-condition membership is decided on the signed mode numbers m", bad,
@@ -263,73 +1244,202 @@ def per_mode(chk):
     # the derived solver's m=0 operator is built from the same blocks (their signs are this class's convention)
     from .C15 import m0_operator
     m0_operator(chk)
-    if mode_power(chk) < 3:
-        raise AnalysisError("C14: fewer than the three per-mode operator sites found")
-    for u in uses:
-        v = src(u.value).replace(" ", "").replace("\n", "")
-        ok_l = "iinlNeumannIdx" in v and "iinuNeumannIdx" in v and "foriinself._mVals" in v
-        chk.pat("F4-mode-bookkeeping", u, src(u.targets[0]), ok_l, "one slice per mode, lower/upper Neumann membership decided per mode",
-                file=U.POISSON, func=f"{CLS}.__init__")
+    mode_power(chk)
     # per-mode operator and Dirichlet reset inside the loop, before the solve
-    for cls, m, callee in ((CLS, "solveEquation", "_solveMode"), (CLS, "solveEquationForFunction", "_solveModeFunc"),
-                           ("QuasiNeutralitySolver", "solveEquation", "_solveMode")):
-        fn = chk.func(U.POISSON, f"{cls}.{m}")
-        loops = [n for n in fn.body if isinstance(n, ast.For)]
-        if len(loops) != 1:
-            raise AnalysisError(f"C14: per-mode loop not found in {cls}.{m}")
-        lp = loops[0]
+    for cls, m, callee in ENTRIES:
+        fn, lp, li, gi = mode_loop(chk, cls, m)
+        if lp is None:
+            for rule in ("F4-dirichlet-reset", "F4-mode-operator"):
+                chk.ob(rule, fn, f"{cls}.{m}: per-mode loop", None, "loop over enumerate(<grid>.getGlobalIdxVals(0)) not found",
+                       file=U.POISSON, func=f"{cls}.{m}")
+            continue
+        env = env_of(chk, fn)
         body = lp.body
         pos_call = [k for k, s_ in enumerate(body) if any(isinstance(c, ast.Call) and isinstance(c.func, ast.Attribute)
                                                           and c.func.attr == callee for c in ast.walk(s_))]
         resets = {}
         for k, s_ in enumerate(body):
-            if isinstance(s_, ast.Assign) and src(s_.targets[0]) in ("self._coeffs[0]", "self._coeffs[-1]") and src(s_.value) == "0":
-                resets[src(s_.targets[0])] = k
-        ok = bool(pos_call) and set(resets) == {"self._coeffs[0]", "self._coeffs[-1]"} and all(v < pos_call[0] for v in resets.values())
+            for r_ in _reset_targets(s_):
+                resets.setdefault(r_, k)
+        ok = bool(pos_call) and set(resets) == {0, -1} and all(v < pos_call[0] for v in resets.values())
         bad = None
+        if not ok and pos_call and not resets:
+            # the reset may be the first thing the per-mode solve does
+            cal = flat_view(chk, U.POISSON, CLS, callee)
+            first = {}
+            for k, s_ in enumerate(cal.body):
+                if isinstance(s_, (ast.For, ast.While, ast.If, ast.Try, ast.With)):
+                    break
+                for r_ in _reset_targets(s_):
+                    first.setdefault(r_, k)
+                if any(isinstance(c, ast.Call) and src(c.func).split(".")[-1] == "spsolve" for c in ast.walk(s_)):
+                    break
+            if set(first) == {0, -1}:
+                ok = True
         if not ok and pos_call:
-            outside = [n for n in ast.walk(fn) if isinstance(n, ast.Assign) and src(n.targets[0]) in ("self._coeffs[0]", "self._coeffs[-1]")
-                       and src(n.value) == "0" and not any(n is x for x in ast.walk(lp))]
-            anyreset = any("_coeffs[0]" in src(n) or "_coeffs[-1]" in src(n) or "_coeffs[" in src(n) for n in ast.walk(lp)
-                           if isinstance(n, (ast.Assign, ast.AugAssign)))
-            if outside or not anyreset or (resets and any(v > pos_call[0] for v in resets.values())):
+            outside = [n for n in ast.walk(fn) if isinstance(n, ast.Assign) and _reset_targets(n) and not any(n is x for x in ast.walk(lp))]
+            anyreset = any(isinstance(n, (ast.Assign, ast.AugAssign)) and any("self._coeffs[" in src(t) for t in
+                                                                              (n.targets if isinstance(n, ast.Assign) else [n.target]))
+                           for n in ast.walk(lp)) or \
+                any(isinstance(n, ast.Call) and isinstance(n.func, ast.Attribute) and src(n.func.value) == "self._coeffs" for n in ast.walk(lp))
+            late = bool(resets) and any(v > pos_call[0] for v in resets.values())
+            if outside or not anyreset or late:
                 bad = ("the boundary coefficients are not reset for every mode before the solve: the value written by a Neumann mode "
                        "leaks into the following Dirichlet modes (modes no longer independent, Dirichlet value non-zero)")
+            elif set(resets) and set(resets) != {0, -1} and not any(isinstance(n, ast.If) for n in body):
+                side = "upper" if 0 in resets else "lower"
+                bad = (f"only one boundary coefficient is reset per mode: the {side} boundary value of a Neumann mode leaks into the "
+                       "following Dirichlet modes")
         chk.pat("F4-dirichlet-reset", lp, f"{cls}.{m}: self._coeffs[0] = self._coeffs[-1] = 0 before each mode", ok,
                 "both boundary coefficients are zeroed inside the per-mode loop before the solve, so a Neumann mode's boundary "
                 "value cannot leak into the next Dirichlet mode", bad, file=U.POISSON, func=f"{cls}.{m}")
         # operator for mode I: restricted to the unknowns of the global mode index, every per-mode table read at that index
         oko, bad = False, None
-        if isinstance(lp.target, ast.Tuple) and len(lp.target.elts) == 2 and isinstance(lp.iter, ast.Call) and src(lp.iter.func) == "enumerate" \
-                and lp.iter.args and src(lp.iter.args[0]).replace(" ", "") in ("rho.getGlobalIdxVals(0)", "phi.getGlobalIdxVals(0)"):
-            gi = src(lp.target.elts[1])
-            ops = [n for n in ast.walk(lp) if isinstance(n, ast.Assign) and isinstance(n.value, ast.Subscript)
-                   and any(src(x) == "self._k2PhiPsi" for x in ast.walk(n.value.value))]
-            tabs = [n for n in ast.walk(lp) if isinstance(n, ast.Subscript) and src(n.value) in ("self._mVals", "self._stiffness_range", "self._coeff_range")]
-            wrong = [src(n) for n in tabs if src(n.slice) != gi]
-            if wrong:
-                bad = f"per-mode tables are looked up with {wrong} instead of the global mode index `{gi}`"
-            elif ops:
-                sl = ops[0].value.slice
-                oko = isinstance(sl, ast.Tuple) and len(sl.elts) == 2 and all(src(e_) == f"self._stiffness_range[{gi}]" for e_ in sl.elts) \
-                    and any(src(x) == "self._stiffnessMatrix" for x in ast.walk(ops[0].value.value))
+        ops = [n for n in ast.walk(lp) if isinstance(n, (ast.Assign, ast.Expr, ast.Return))]
+        tabs = []
+        for s_ in ast.walk(lp):
+            if isinstance(s_, ast.stmt):
+                for e_ in _own_exprs(s_):
+                    ex = env.x(e_, use=s_)
+                    tabs += [n for n in ast.walk(ex) if isinstance(n, ast.Subscript) and src(n.value) in TABLES]
+        wrong = sorted({src(n) for n in tabs if src(n.slice) != gi})
+        if wrong:
+            bad = f"per-mode tables are looked up with {wrong} instead of the global mode index `{gi}`"
+        else:
+            for s_ in ops:
+                for e_ in _own_exprs(s_):
+                    ex = env.x(e_, use=s_)
+                    for n in ast.walk(ex):
+                        if isinstance(n, ast.Subscript) and any(src(x) == "self._k2PhiPsi" for x in ast.walk(n.value)):
+                            sl = n.slice
+                            rng = f"self._stiffness_range[{gi}]"
+                            if isinstance(sl, ast.Tuple) and len(sl.elts) == 2 and all(src(e2) == rng for e2 in sl.elts) \
+                                    and any(src(x) == "self._stiffnessMatrix" for x in ast.walk(n.value)):
+                                oko = True
+                            elif isinstance(sl, ast.Tuple) and len(sl.elts) == 2 and {src(e2) for e2 in sl.elts} == {rng, ":"}:
+                                bad = (f"the operator of mode {gi} is restricted to the unknowns of the mode in one direction only "
+                                       f"(`[{src(sl)}]`): the matrix handed to the solve is not square / keeps Dirichlet columns")
         chk.pat("F4-mode-operator", lp, f"{cls}.{m}: operator of mode I", oko,
                 "operator = (theta-independent operator - m_I^2 k2), restricted to the unknowns of mode I; every per-mode table is read at "
                 "the global mode index", bad, file=U.POISSON, func=f"{cls}.{m}")
-    # _solveMode: rhs = mass . coeffs(rho), unknowns written into the mode's coefficient range, evaluation of full coeffs
-    sm = chk.func(U.POISSON, f"{CLS}._solveMode")
-    t = src(sm).replace(" ", "").replace("\n", "")
-    ok = "massMat=self._massMatrix[self._stiffness_range[I],:]" in t and "coeffs=self._coeffs[self._coeff_range[I]]" in t and \
-        "coeffs[:]=spsolve(stiffnessMatrix,massMat.dot(self._spline.coeffs))" in t and \
-        "self._interpolator.compute_interpolant(rho.get1DSlice(i,j),self._spline)" in t
-    chk.pat("F4-mode-solve", sm, "_solveMode: coeffs[range_I] = S^-1 M[range_I,:] c(rho)", ok,
+    mode_solve(chk)
+    output_complete(chk)
+
+
+def mode_solve(chk):
+    """_solveMode: rhs = mass . coeffs(rho), unknowns written into the mode's coefficient range; both solves: evaluation of the
+    full coefficient vector at the radial nodes, real and imaginary part"""
+    q = f"{CLS}._solveMode"
+    sm = flat_view(chk, U.POISSON, CLS, "_solveMode")
+    env = env_of(chk, sm)
+    pr = [a.arg for a in sm.args.args]
+    li, gi = (pr[4], pr[5]) if len(pr) >= 6 else ("i", "I")
+    solves = [n for n in ast.walk(sm) if isinstance(n, ast.Assign) and isinstance(n.value, ast.Call)
+              and src(n.value.func).split(".")[-1] == "spsolve" and len(n.value.args) == 2]
+    ok, bad = False, None
+    if len(solves) == 1:
+        st = solves[0]
+        tgt = env.x(st.targets[0], use=st)
+        mat = env.x(st.value.args[0], use=st)
+        rhs = env.x(st.value.args[1], use=st)
+        ts = src(tgt).replace(" ", "")
+        ok_t = ts in (f"self._coeffs[self._coeff_range[{gi}]][:]", f"self._coeffs[self._coeff_range[{gi}]]")
+        ok_m = src(mat) == (pr[3] if len(pr) >= 6 else "stiffnessMatrix")
+        ok_r = same_expr(rhs, f"self._massMatrix[self._stiffness_range[{gi}], :].dot(self._spline.coeffs)") or \
+            same_expr(rhs, f"self._massMatrix[self._stiffness_range[{gi}], :] @ self._spline.coeffs")
+        zl = [n for n in ast.walk(sm) if isinstance(n, ast.For) and any(st is x for x in ast.walk(n))]
+        jn = None
+        if zl and isinstance(zl[0].target, ast.Tuple) and zl[0].target.elts and isinstance(zl[0].target.elts[0], ast.Name):
+            jn = zl[0].target.elts[0].id
+        interp = [c for c in ast.walk(sm) if isinstance(c, ast.Call) and isinstance(c.func, ast.Attribute) and c.func.attr == "compute_interpolant"]
+        ok_i = False
+        if len(interp) == 1 and len(interp[0].args) == 2 and jn is not None:
+            a0 = env.x(interp[0].args[0], use=_stmt_of(interp[0]))
+            ok_i = src(interp[0].func.value) == "self._interpolator" and src(a0).replace(" ", "") == f"rho.get1DSlice({li},{jn})" \
+                and src(env.x(interp[0].args[1], use=_stmt_of(interp[0]))) == "self._spline" and env.before(interp[0], st)
+        ok = ok_t and ok_m and ok_r and ok_i
+        if not ok:
+            rs = src(rhs)
+            wrong_idx = sorted({src(n) for e_ in (tgt, rhs) for n in ast.walk(e_) if isinstance(n, ast.Subscript)
+                                and src(n.value) in TABLES and src(n.slice) != gi})
+            if wrong_idx:
+                bad = f"per-mode tables are looked up with {wrong_idx} instead of the global mode index `{gi}`"
+            elif "self._spline.coeffs" in rs and "_massMatrix" not in rs and isinstance(rhs, (ast.Attribute, ast.Subscript)):
+                bad = ("the right-hand side of the solve is the coefficient vector of rho itself, not the mass matrix applied to it: "
+                       "the equation solved is S phi = c(rho) instead of S phi = M c(rho)")
+            elif ts.startswith("self._coeffs[self._stiffness_range["):
+                bad = ("the solution is written to self._coeffs at the operator's row range instead of the mode's coefficient range: "
+                       "with a Dirichlet lower boundary every coefficient is shifted by one")
+    chk.pat("F4-mode-solve", solves[0] if len(solves) == 1 else sm, "_solveMode: coeffs[range_I] = S^-1 M[range_I,:] c(rho)", ok,
             "right-hand side is the mass matrix applied to the spline coefficients of rho; the solution fills the mode's unknowns, "
-            "Dirichlet entries keep their zero", file=U.POISSON, func=f"{CLS}._solveMode")
+            "Dirichlet entries keep their zero", bad, file=U.POISSON, func=q)
+    for name in ("_solveMode", "_solveModeFunc"):
+        evaluation(chk, name)
+
+
+def evaluation(chk, name):
+    q = f"{CLS}.{name}"
+    f_ = flat_view(chk, U.POISSON, CLS, name)
+    env = env_of(chk, f_)
+    stores = [n for n in ast.walk(f_) if isinstance(n, ast.Assign) and isinstance(n.targets[0], ast.Subscript)
+              and src(env.x(n.targets[0].value, use=n)).startswith("phi.get1DSlice(")]
+    ok, bad = False, None
+    if len(stores) == 1:
+        st = stores[0]
+        blk, k = _block_of(st)
+        loaded, mem, pts_ok, pts_bad = None, {}, True, None
+        for s_ in blk[:k]:
+            if isinstance(s_, ast.Assign) and src(s_.targets[0]).replace(" ", "") in ("self._real_spline.coeffs[:]", "self._real_spline.coeffs"):
+                v = env.x(s_.value, use=s_)
+                loaded = None
+                for part in ("real", "imag"):
+                    if same_expr(v, f"np.{part}(self._coeffs)") or same_expr(v, f"self._coeffs.{part}") or \
+                            same_expr(v, f"numpy.{part}(self._coeffs)"):
+                        loaded = part
+                if loaded is None:
+                    loaded = "?" + src(v)
+            elif isinstance(s_, ast.Expr) and isinstance(s_.value, ast.Call) and isinstance(s_.value.func, ast.Attribute) \
+                    and s_.value.func.attr == "eval_vector" and src(s_.value.func.value) == "self._real_spline" and len(s_.value.args) >= 2:
+                pts = env.x(s_.value.args[0], use=s_)
+                if not same_expr(pts, "phi.getCoordVals(2)"):
+                    pts_ok = False
+                    if isinstance(pts, ast.Call) and src(pts.func) == "phi.getCoordVals" and len(pts.args) == 1 \
+                            and isinstance(pts.args[0], ast.Constant) and pts.args[0].value != 2:
+                        pts_bad = src(pts)
+                if len(s_.value.args) > 2 or s_.value.keywords:
+                    pts_ok = False
+                mem[src(env.x(s_.value.args[1], use=s_))] = loaded
+            elif isinstance(s_, ast.Assign) and src(s_.targets[0]).replace(" ", "") in ("self._realMem[:]", "self._imagMem[:]") \
+                    and isinstance(s_.value, ast.Call) and isinstance(s_.value.func, ast.Attribute) and s_.value.func.attr == "eval" \
+                    and src(s_.value.func.value) == "self._real_spline" and len(s_.value.args) == 1:
+                pts = env.x(s_.value.args[0], use=s_)
+                if not same_expr(pts, "phi.getCoordVals(2)"):
+                    pts_ok = False
+                mem[src(s_.targets[0]).replace(" ", "")[:-3]] = loaded
+        v = env.x(st.value, use=st)
+        comb = same_expr(v, "self._realMem + 1j * self._imagMem") or same_expr(v, "self._realMem + self._imagMem * 1j")
+        tg = src(st.targets[0].slice).replace(" ", "") == ":"
+        if comb and tg and mem.get("self._realMem") == "real" and mem.get("self._imagMem") == "imag" and pts_ok:
+            ok = True
+        elif comb and tg and pts_bad:
+            bad = f"the solution spline is evaluated at `{pts_bad}` instead of the grid's radial coordinates phi.getCoordVals(2)"
+        elif comb and tg and pts_ok and set(mem) >= {"self._realMem", "self._imagMem"} and \
+                all(mem[k_] in ("real", "imag") for k_ in ("self._realMem", "self._imagMem")):
+            bad = (f"the real-part buffer holds the {mem['self._realMem']} part and the imaginary-part buffer the {mem['self._imagMem']} "
+                   "part of the coefficients: the recombined values are not the complex solution")
+    chk.pat("F4-mode-solve", stores[0] if len(stores) == 1 else f_, f"{name}: evaluation at the radial nodes", ok,
+            "real and imaginary parts are evaluated from the full coefficient vector at the grid's r coordinates and recombined",
+            bad, file=U.POISSON, func=q)
+
+
+def output_complete(chk):
     # every (mode, z) line of the output is written: no path of the z loop skips the store into phi
-    for q_ in (f"{CLS}._solveMode", f"{CLS}._solveModeFunc"):
-        f_ = chk.func(U.POISSON, q_)
+    for name in ("_solveMode", "_solveModeFunc"):
+        q_ = f"{CLS}.{name}"
+        f_ = flat_view(chk, U.POISSON, CLS, name)
+        env = env_of(chk, f_)
         stores = [n for n in ast.walk(f_) if isinstance(n, ast.Assign) and isinstance(n.targets[0], ast.Subscript)
-                  and src(n.targets[0].value).startswith("phi.get1DSlice(")]
+                  and src(env.x(n.targets[0].value, use=n)).startswith("phi.get1DSlice(")]
         zl = [n for n in f_.body if isinstance(n, ast.For) and stores and any(stores[-1] is x for x in ast.walk(n))]
         if len(zl) != 1 or not stores:
             chk.ob("F4-output-complete", f_, f"{q_}: store into phi.get1DSlice(i, j) inside the z loop", None,
@@ -338,42 +1448,20 @@ def per_mode(chk):
         st_ = stores[-1]
         inner = {id(x) for n in ast.walk(zl[0]) if n is not zl[0] and isinstance(n, (ast.For, ast.While)) for x in ast.walk(n)}
         skips = [n for n in ast.walk(zl[0]) if isinstance(n, (ast.Continue, ast.Break, ast.Return)) and id(n) not in inner
-                 and n.lineno < st_.lineno]
+                 and env.before(n, st_)]
         direct = any(st_ is x for x in zl[0].body)
         chk.ob("F4-output-complete", skips[0] if skips else st_, f"{q_}: every z line of the mode is written", (not skips and direct) if (skips or direct) else None,
                "the store into the output line is an unconditional statement of the z loop" if not skips and direct else
                (f"`{src(parent(skips[0]))[:80]}` leaves the z loop iteration before the output line is written: phi keeps whatever the buffer "
                 "held (the previous solve), so the result is no longer the solution for this rho (not linear in rho, not zero for rho = 0)"
                 if skips else "the store into the output line is conditional"), file=U.POISSON, func=q_)
-    ok2 = "self._real_spline.coeffs[:]=np.real(self._coeffs)" in t and "self._real_spline.coeffs[:]=np.imag(self._coeffs)" in t and \
-        "phi.get1DSlice(i,j)[:]=self._realMem+1j*self._imagMem" in t and t.count("self._real_spline.eval_vector(phi.getCoordVals(2),") == 2
-    chk.pat("F4-mode-solve", sm, "_solveMode: evaluation at the radial nodes", ok2,
-            "real and imaginary parts are evaluated from the full coefficient vector at the grid's r coordinates and recombined",
-            file=U.POISSON, func=f"{CLS}._solveMode")
-
-
-def _sym(e, table):
-    """arithmetic expression -> sympy, every name/attribute/subscript an opaque symbol keyed by its source"""
-    import sympy as sp
-    if isinstance(e, ast.Constant) and isinstance(e.value, (int, float)):
-        return sp.nsimplify(e.value)
-    if isinstance(e, ast.BinOp) and type(e.op) in (ast.Add, ast.Sub, ast.Mult, ast.Div, ast.Pow):
-        a, b = _sym(e.left, table), _sym(e.right, table)
-        return {ast.Add: a + b, ast.Sub: a - b, ast.Mult: a * b, ast.Div: a / b, ast.Pow: a ** b}[type(e.op)]
-    if isinstance(e, ast.UnaryOp) and isinstance(e.op, ast.USub):
-        return -_sym(e.operand, table)
-    if isinstance(e, (ast.Name, ast.Attribute, ast.Subscript)):
-        return table.setdefault(src(e), sp.Symbol("s%d" % len(table)))
-    raise KeyError(src(e))
 
 
 def mode_power(chk):
     """the coefficient of the k2 block in every per-mode operator is -(m_I)^2, counting the squaring done once in the constructor"""
-    import sympy as sp
-    fn_init = chk.func(U.POISSON, f"{CLS}.__init__")
+    fn_init = flat_view(chk, U.POISSON, CLS, "__init__")
     init_exp, unknown = 1, []
     for n in ast.walk(fn_init):
-        tgt = None
         if isinstance(n, ast.AugAssign) and src(n.target) == "self._mVals":
             if isinstance(n.op, ast.Mult) and src(n.value) == "self._mVals":
                 init_exp *= 2
@@ -383,7 +1471,7 @@ def mode_power(chk):
                 unknown.append(n)
         elif isinstance(n, ast.Assign) and src(n.targets[0]) == "self._mVals" and "self._mVals" in src(n.value):
             v = src(n.value).replace(" ", "")
-            if v in ("self._mVals**2", "self._mVals*self._mVals", "np.square(self._mVals)"):
+            if v in ("self._mVals**2", "self._mVals*self._mVals", "np.square(self._mVals)", "np.power(self._mVals,2)"):
                 init_exp *= 2
             else:
                 unknown.append(n)
@@ -392,18 +1480,37 @@ def mode_power(chk):
                 if isinstance(t, ast.Subscript) and src(t.value) == "self._mVals":
                     unknown.append(n)
     nsites = 0
-    for cls, m in ((CLS, "solveEquation"), (CLS, "solveEquationForFunction"), ("QuasiNeutralitySolver", "solveEquation")):
-        fn = chk.func(U.POISSON, f"{cls}.{m}")
+    for cls, m, _ in ENTRIES:
+        fn = flat_view(chk, U.POISSON, cls, m)
+        env = env_of(chk, fn)
         sites = []
-        for n in ast.walk(fn):
-            if isinstance(n, ast.BinOp) and any(src(x) == "self._k2PhiPsi" for x in ast.walk(n)) and \
-                    not (isinstance(parent(n), ast.BinOp) and any(src(x) == "self._k2PhiPsi" for x in ast.walk(parent(n)))):
-                sites.append(n)
+        for st in ast.walk(fn):
+            if not isinstance(st, ast.stmt):
+                continue
+            for e_ in _own_exprs(st):
+                ex = env.x(e_, use=st)
+                if not any(isinstance(x, ast.Attribute) and src(x) == "self._k2PhiPsi" for x in ast.walk(ex)):
+                    continue
+                _relink(ex, None)
+                for n in ast.walk(ex):
+                    if isinstance(n, ast.BinOp) and any(src(x) == "self._k2PhiPsi" for x in ast.walk(n)) and \
+                            not (isinstance(parent(n), ast.BinOp) and any(src(x) == "self._k2PhiPsi" for x in ast.walk(parent(n)))):
+                        sites.append((st, n))
+        # a named part of the operator (`t = m*K; S - t`) is judged where it is used: keep the maximal expressions, once each
+        texts = [src(n) for _, n in sites]
+        keep = []
+        for k, (st, n) in enumerate(sites):
+            if any(j != k and texts[k] in texts[j] and len(texts[j]) > len(texts[k]) for j in range(len(sites))):
+                continue
+            if texts[k] in texts[:k]:
+                continue
+            keep.append((st, n))
+        sites = keep
         if not sites:
             chk.ob("F4-mode-power", fn, f"{cls}.{m}: coefficient of the k2 block", None, "no expression involving self._k2PhiPsi found",
                    file=U.POISSON, func=f"{cls}.{m}")
             continue
-        for site in sites:
+        for st, site in sites:
             nsites += 1
             ok, why = None, ""
             try:
@@ -414,7 +1521,7 @@ def mode_power(chk):
                 ms = [v for k, v in table.items() if k.startswith("self._mVals[")]
                 if unknown:
                     why = f"self._mVals is modified by `{src(unknown[0])[:60]}` in the constructor: power of m not determined"
-                elif len(ms) != 1:
+                elif len(ms) != 1 or (co.free_symbols - set(ms)):
                     why = f"coefficient of the k2 block is `{co}`: not a power of one mode number"
                 else:
                     M = ms[0]
@@ -434,44 +1541,58 @@ def mode_power(chk):
                         why = f"coefficient of the k2 block is `{co}`"
             except (KeyError, sp.PolynomialError) as e:
                 why = f"operator expression `{src(site)[:70]}` not an arithmetic expression: {e}"
-            chk.ob("F4-mode-power", site, f"{cls}.{m}: {src(site)[:70]}", ok, why, file=U.POISSON, func=f"{cls}.{m}")
+            chk.ob("F4-mode-power", st, f"{cls}.{m}: {src(site)[:70]}", ok, why, file=U.POISSON, func=f"{cls}.{m}")
     return nsites
 
 
 def refusal(chk):
-    fn = chk.func(U.POISSON, f"{CLS}.__init__")
+    fn = flat_view(chk, U.POISSON, CLS, "__init__")
+    env = env_of(chk, fn)
     raises = [n for n in ast.walk(fn) if isinstance(n, ast.Raise)]
     ok = False
-    first_assembly = min([n.lineno for n in ast.walk(fn) if isinstance(n, ast.For)] or [10 ** 9])
+    bad = None
     for r in raises:
         g = parent(r)
-        if isinstance(g, ast.If) and "poorlyDefined" in src(g.test) and "funcIsNull(rFactor)" in src(g.test) \
-                and r.lineno < first_assembly:
-            ok = True
-    pd = [n for n in ast.walk(fn) if isinstance(n, ast.Assign) and src(n.targets[0]) == "poorlyDefined"]
-    okp = bool(pd) and src(pd[0].value).replace(" ", "") == "[bforbinlNeumannIdxifbinuNeumannIdx]"
-    bad = None
+        if not (isinstance(g, ast.If) and any(r is x for x in g.body)):
+            continue
+        t = env.x(g.test, stop=set(COEFF_FUNCS), use=g)
+        ts = src(t).replace(" ", "")
+        both = any(same_expr(c, f"[b for b in {a_} if b in {b_}]", vars=("b",)) for c in ast.walk(t) if isinstance(c, ast.ListComp)
+                   for a_, b_ in (("lNeumannIdx", "uNeumannIdx"), ("uNeumannIdx", "lNeumannIdx"))) or \
+            "set(lNeumannIdx)&set(uNeumannIdx)" in ts or "set(uNeumannIdx)&set(lNeumannIdx)" in ts or \
+            "set(lNeumannIdx).intersection(uNeumannIdx)" in ts or "set(uNeumannIdx).intersection(lNeumannIdx)" in ts
+        null = [c for c in ast.walk(t) if isinstance(c, ast.Call) and src(c.func) == "self.funcIsNull" and len(c.args) == 1
+                and src(c.args[0]) == "rFactor"]
+        if both and null:
+            negated = any(isinstance(n, ast.UnaryOp) and isinstance(n.op, ast.Not) and any(null[0] is x for x in ast.walk(n.operand))
+                          for n in ast.walk(t))
+            if negated:
+                bad = ("pure-Neumann modes are refused when the reaction term does NOT vanish and accepted when it does: the singular "
+                       "problems go through")
+            elif isinstance(t, ast.BoolOp) and isinstance(t.op, ast.And):
+                ok = True
     if not raises:
         bad = "no refusal of ill-posed pure-Neumann modes is left in the constructor"
-    chk.pat("F4-neumann-refusal", fn, "raise ValueError for modes Neumann at both ends with C == 0", ok and okp,
-            "modes with Neumann conditions on both boundaries are refused when the reaction term vanishes, before assembly", bad,
+    chk.pat("F4-neumann-refusal", fn, "raise ValueError for modes Neumann at both ends with C == 0", ok,
+            "modes with Neumann conditions on both boundaries are refused when the reaction term vanishes", bad,
             file=U.POISSON, func=f"{CLS}.__init__")
 
 
 def run(chk):
     chk.explanation = (
         "Element-wise model of the assembly in DiffEqSolver.__init__: each np.sum(weights*halfwidth*...) integrand is parsed "
-        "into a polynomial over {W, MF, A..E, phi, phi', psi, psi', r} and compared with the weak form of "
-        "A phi'' + B phi' + C phi - m^2 D phi = E rho in cylindrical measure (integration by parts of the A term for constant A, "
-        "derivative on the trial/column function on both the upper and the mirrored diagonals); operator composition; mode-number "
-        "def-use order; Dirichlet reset inside every per-mode loop; per-mode operator with the global mode index; right-hand "
-        "side and evaluation; pure-Neumann refusal; plus the index-space typing of the per-mode tables (engine C). Quadrature "
-        "exactness, the sparse solve and evaluation accuracy are not decided.")
+        "(local names expanded to their definitions) into a polynomial over {W, MF, A..E, phi, phi', psi, psi', r} and compared "
+        "with the weak form of A phi'' + B phi' + C phi - m^2 D phi = E rho in cylindrical measure (integration by parts of the A "
+        "term for constant A, derivative on the trial/column function on both the upper and the mirrored diagonals); number of "
+        "Gauss-Legendre points against the requested degree (2n-1 >= degree for all degrees); cell mapping of the points; operator "
+        "composition; mode-number def-use order; Dirichlet reset inside every per-mode loop; per-mode operator with the global "
+        "mode index (helper methods written back in place); right-hand side and evaluation; pure-Neumann refusal; plus the "
+        "index-space typing of the per-mode tables (engine C). The sparse solve and evaluation accuracy are not decided.")
     chk.in_file(U.POISSON)
     assembly(chk)
     per_mode(chk)
     refusal(chk)
-    solver_index_spaces(chk)
+    solver_index_spaces(ViewedCheck(chk))
     chk.floor("F4-weak-form", 7)
     chk.floor("F4-", 20)
     chk.floor("C-", 10)
